@@ -434,7 +434,7 @@ pub fn nontrivial(prop: &str, c: &BTreeMap<String, u64>) -> bool {
         "C13" => g("vacuums") > 0 && g("state_checks") > 0,
         "C15" => g("ddl_in_session") > 0,
         "C16" => g("failed_statements_in_session") > 0,
-        "C20" => (g("pipe_fragmented_reads") + g("pipe_read_eintr") + g("pipe_short_writes")) > 0 && (g("truncated_streams") + g("garbage_streams") + g("mutated_frames")) > 0,
+        "C20" => (g("pipe_fragmented_reads") + g("pipe_read_eintr") + g("pipe_short_writes")) > 0 && (g("truncated_streams") + g("garbage_streams") + g("mutated_frames") + g("mangled_frames")) > 0,
         "C17" => g("reads_nonempty_correct") > 0 && (g("reopens") + g("truncations") + g("appends_near_block_size")) > 0,
         "C01" => g("crash_points_after_an_ack") > 0,
         "C02" => g("crash_points") > 0 && (g("rollbacks") + g("session_drops") + g("sessions")) > 0,
